@@ -43,7 +43,7 @@ def required_counters(tier):
         "typevar.compared": 30,
         "scalar.kept": 20,
         "scalar.dropped": 50,
-        "aliases.compared": 3,
+        "aliases.compared": 3, "union.of_nested_compared": 30,
     }
 
 
@@ -278,6 +278,50 @@ def law_unions(rec):
                         rec.violation("union", {"law": inst}, f"D[Union[...],s] != Union[D[A,s],...]: {first_diff(v1, v2)}", mechanism="union-accepts-differently")
 
 
+def law_union_of_nested(rec):
+    """D[Union[D1[A,s1], D2[A,s1]], s2]  ==  Union[(D&D1)[A,'s2 s1'], (D&D2)[A,'s2 s1']]  (flat classes on the right)"""
+    import jaxtyping
+
+    N = np.ndarray
+    for d in ("Shaped", "Num", "Real", "Inexact"):
+        for d1, d2 in (("Float", "Int"), ("Float32", "Float64"), ("Bool", "UInt8"), ("Complex", "Float"), ("Int8", "Int")):
+            for s1, s2 in (("a", "b"), ("a", ""), ("*v", "2"), ("a b", "...")):
+                inst = ("union-of-nested", d, d1, d2, s1, s2)
+                D, D1, D2 = (getattr(jaxtyping, x) for x in (d, d1, d2))
+                rec.case(inst, True)
+                parts = []
+                for di in (d1, d2):
+                    inter = names_of(di) if d == "Shaped" else sorted(set(names_of(d)) & set(names_of(di)))
+                    if inter:
+                        I = type("I", (jaxtyping.AbstractDtype,), {"dtypes": list(inter)})
+                        parts.append(I[N, (s2 + " " + s1).strip()])
+                g, lhs = build(lambda: D[typing.Union[D1[N, s1], D2[N, s1]], s2])
+                if not parts:
+                    continue  # both members have an empty intersection: error behaviour is the nesting law's business
+                if len(parts) < 2:
+                    rec.open_corner("union-member-with-empty-intersection")
+                    continue
+                if g != "ok":
+                    rec.violation("union", {"law": inst}, f"{d}[Union[{d1}[N,{s1!r}], {d2}[N,{s1!r}]], {s2!r}] failed to build: {g}", mechanism="union-of-nested-build-" + g)
+                    continue
+                rhs = typing.Union[tuple(parts)]
+                v1, v2 = accept_vec(lhs), accept_vec(rhs)
+                rec.count("union.of_nested_compared")
+                if v1 != v2:
+                    rec.violation("union", {"law": inst}, f"{d}[Union[{d1}[..], {d2}[..]], {s2!r}] differs from the union of the flat intersections: {first_diff(v1, v2)}", mechanism="union-of-nested-accepts-differently")
+    # a TypeVar constrained to two nested annotations, and re-nesting of siblings built one after the other
+    F1, F2 = jaxtyping.Float[N, "a"], jaxtyping.Int[N, "a"]
+    tv = typing.TypeVar("TN", F1, F2)
+    g, lhs = build(lambda: jaxtyping.Shaped[tv, "b"])
+    rhs = typing.Union[jaxtyping.Float[N, "b a"], jaxtyping.Int[N, "b a"]]
+    if g != "ok" or accept_vec(lhs) != accept_vec(rhs):
+        rec.violation("typevar", {"law": ["union-of-nested", "typevar"]}, "Shaped[TypeVar(Float[N,'a'], Int[N,'a']), 'b'] differs from Union[Float[N,'b a'], Int[N,'b a']]", mechanism="typevar-of-nested-accepts-differently")
+    a3 = jaxtyping.Shaped[jaxtyping.Shaped[F1, "b"], "c"]
+    b3 = jaxtyping.Shaped[jaxtyping.Shaped[F2, "b"], "c"]
+    if accept_vec(a3) != accept_vec(jaxtyping.Float[N, "c b a"]) or accept_vec(b3) != accept_vec(jaxtyping.Int[N, "c b a"]):
+        rec.violation("nesting", {"law": ["union-of-nested", "three-levels"]}, "three-level nestings of sibling annotations do not keep their own dtypes", mechanism="three-level-siblings-collide")
+
+
 def law_typevars(rec):
     import jax
 
@@ -359,6 +403,8 @@ def run_shard(rec, seed, shard, tier):
         law_unions(rec)
     if shard["i"] == 2:
         law_typevars(rec)
+    if shard["i"] == 3:
+        law_union_of_nested(rec)
     rec.info["nest_space"] = idx if shard["i"] == 0 else 0
     rec.sample({"law": "nesting", "instance": ["Float", "Shaped", "a b", "*v", "ndarray"]})
 
